@@ -215,7 +215,10 @@ func bindResults(env *Env, sig *types.Signature, vals []*Val) {
 		env.vars[fmt.Sprintf("result%d", i)] = v
 	}
 	if len(vals) >= 1 {
-		env.vars["result"] = vals[0]
+		if _, clash := env.vars["result"]; !clash {
+			// a parameter named `result` keeps its name; the first return value is then result0 only
+			env.vars["result"] = vals[0]
+		}
 	}
 }
 
